@@ -1710,25 +1710,47 @@ def _while_to_for(fn: ast.FunctionDef) -> bool:
                 continue
             # the initialisation: the nearest preceding plain definition of j in this block, j untouched in between
             init = None
+            clamp = None
             for q in range(k - 1, -1, -1):
                 if _plain_def(block[q], j):
                     init = q
                     break
+                c_ = block[q]
+                # `if j < c: j = c` directly in front: the count starts at max(j, c)
+                if clamp is None and up and isinstance(c_, ast.If) and not c_.orelse and len(c_.body) == 1 \
+                        and _plain_def(c_.body[0], j) and isinstance(c_.test, ast.Compare) and len(c_.test.ops) == 1 \
+                        and isinstance(c_.test.ops[0], ast.Lt) and isinstance(c_.test.left, ast.Name) and c_.test.left.id == j \
+                        and ast.dump(c_.test.comparators[0]) == ast.dump(c_.body[0].value) and j not in _names_loaded(c_.body[0].value):
+                    clamp = q
+                    continue
                 if any(isinstance(n, ast.Name) and n.id == j for n in ast.walk(block[q])):
                     break
-            if init is None:
-                continue
-            A = block[init].value
-            between = ast.Module(body=block[init + 1:k], type_ignores=[])
-            if mutated_names(between) & _names_loaded(A) or j in _names_loaded(A) or not _is_pure_expr(A):
-                continue
+            params_ = _fn_params(fn)
+            if init is None and j in params_ and not any(
+                    isinstance(n, ast.Name) and n.id == j for q in range(0, k) if q != clamp for n in ast.walk(block[q])) \
+                    and block is fn.body:
+                # the counter is a parameter (optionally clamped from below first): it starts at its incoming value
+                A = ast.Name(id=j, ctx=ast.Load())
+                if clamp is not None:
+                    A = ast.Call(func=ast.Name(id='max', ctx=ast.Load()),
+                                 args=[ast.Name(id=j, ctx=ast.Load()), block[clamp].body[0].value], keywords=[])
+                drop = [clamp] if clamp is not None else []
+            else:
+                if init is None or clamp is not None:
+                    continue
+                A = block[init].value
+                between = ast.Module(body=block[init + 1:k], type_ignores=[])
+                if mutated_names(between) & _names_loaded(A) or j in _names_loaded(A) or not _is_pure_expr(A):
+                    continue
+                drop = [init]
             args = [A, stop] + ([] if up else [_fix(ast.UnaryOp(op=ast.USub(), operand=ast.Constant(value=1)), s)])
             new = ast.For(target=ast.Name(id=j, ctx=ast.Store()),
                           iter=ast.Call(func=ast.Name(id='range', ctx=ast.Load()), args=args, keywords=[]),
                           body=body or [ast.Pass()], orelse=[])
             _fix(new, s)
             block[k] = new
-            del block[init]
+            for q_ in sorted(drop, reverse=True):
+                del block[q_]
             changed = True
             _invalidate()
             return conv(block, cont)
@@ -1900,6 +1922,13 @@ def _ret_to_assign(stmts: List[ast.stmt], target: Optional[str], at: ast.AST) ->
                 return []
             return [_fix(ast.Expr(value=e), ref)]
         val = e if e is not None else ast.Constant(value=None)
+        if isinstance(target, ast.AST):
+            # a tuple of the caller's names: `a, b = helper(..)` receives each returned tuple directly
+            tg = copy.deepcopy(target)
+            for n_ in ast.walk(tg):
+                if isinstance(n_, ast.Name):
+                    n_._result = True
+            return [_fix(ast.Assign(targets=[tg], value=val), ref)]
         nm = ast.Name(id=target, ctx=ast.Store())
         nm._result = True
         return [_fix(ast.Assign(targets=[nm], value=val), ref)]
@@ -1995,6 +2024,14 @@ class _HelperInliner:
                              or self._returns_param_bound_to(helper, cnode, st.targets[0].id)):
                     tgt = st.targets[0].id
                     body = self._instantiate(helper, cnode, tgt, tag)
+                    if body is None:
+                        cnode._no_inline = True
+                        continue
+                    return pre + body, None, True
+                if whole and isinstance(st, ast.Assign) and len(st.targets) == 1 and isinstance(st.targets[0], ast.Tuple) \
+                        and all(isinstance(x, ast.Name) for x in st.targets[0].elts) \
+                        and not ({x.id for x in st.targets[0].elts} & _names_loaded(cnode)):
+                    body = self._instantiate(helper, cnode, st.targets[0], tag)
                     if body is None:
                         cnode._no_inline = True
                         continue
@@ -2148,7 +2185,7 @@ class _HelperInliner:
                 return None
         mapping = {v: f"{v}{tag}" for v in locals_}
         rets = [n for n in ast.walk(ast.Module(body=body, type_ignores=[])) if isinstance(n, ast.Return)]
-        if target is not None and len(rets) == 1 and body and rets[0] is body[-1] and isinstance(rets[0].value, ast.Name) \
+        if isinstance(target, str) and len(rets) == 1 and body and rets[0] is body[-1] and isinstance(rets[0].value, ast.Name) \
                 and rets[0].value.id in locals_:
             r = rets[0].value.id
             if r in params and isinstance(bound[r], ast.Name) and bound[r].id == target:
@@ -2218,10 +2255,14 @@ def _helper_ok(h: ast.FunctionDef, name: str) -> bool:
 # driver
 # ----------------------------------------------------------------------------------------------
 
-def _module_helpers(tree: ast.Module) -> Dict[str, ast.FunctionDef]:
+def _module_helpers(tree: ast.Module, backend: bool = False) -> Dict[str, ast.FunctionDef]:
+    """Small loop-free module-level functions that are not units of analysis.  In the library modules only private
+    ones (leading underscore); in the kernel modules (pyspike/cython/*) any small function that is not an anchor and
+    is not one of the kernels themselves (those contain loops)."""
     out = {}
     for st in tree.body:
-        if isinstance(st, ast.FunctionDef) and st.name.startswith('_') and not st.name.startswith('__') \
+        if isinstance(st, ast.FunctionDef) and not st.name.startswith('__') \
+                and (st.name.startswith('_') or (backend and len([x for x in ast.walk(st) if isinstance(x, ast.stmt)]) <= 9)) \
                 and _helper_ok(st, st.name):
             # module-level helper: loop-free, and it must not be a unit of analysis (see ANCHORS)
             if any(isinstance(n, (ast.For, ast.While)) for n in ast.walk(st)):
@@ -2398,9 +2439,10 @@ def _CmpDirFn(fn: ast.FunctionDef):
     T().visit(fn)
 
 
-def normalize_module(tree: ast.Module, imported_helpers: Optional[Dict[str, ast.FunctionDef]] = None) -> ast.Module:
+def normalize_module(tree: ast.Module, imported_helpers: Optional[Dict[str, ast.FunctionDef]] = None,
+                     backend: bool = False) -> ast.Module:
     helpers = dict(imported_helpers or {})
-    helpers.update(_module_helpers(tree))
+    helpers.update(_module_helpers(tree, backend))
 
     def visit(block):
         for st in block:
